@@ -340,6 +340,25 @@ pub fn tables<F: BoolExt>(args: &Args) {
                     }
                     row!("empty", &[], json!({}), 0, F::zconst(&s.mref, "empty", 0));
                     row!("base", &[], json!({}), 1, F::zconst(&s.mref, "base", 0));
+                    // make_node(var, hi, lo) for the top-most variable and every pair of families
+                    // over the other variables (incl. hi = lo and hi = empty)
+                    let (l2v_now, _) = s.order();
+                    let top = l2v_now[0] as usize;
+                    let cands: Vec<usize> = (0..256usize).filter(|f| (0..8).all(|a| (f >> a) & 1 == 0 || (a >> top) & 1 == 0)).collect();
+                    let var_tt = 1usize << (1usize << top);
+                    for &hi in &cands {
+                        for &lo in &cands {
+                            // family = lo + { x + {top} | x in hi }
+                            let mut exp = lo;
+                            for a in 0..8usize {
+                                if (hi >> a) & 1 == 1 {
+                                    exp |= 1 << (a | (1 << top));
+                                }
+                            }
+                            row!("make_node", &[h[var_tt], h[hi], h[lo]], json!({}), exp,
+                                F::make_node(s.get(h[var_tt]), s.get(h[hi]), s.get(h[lo])));
+                        }
+                    }
                 }
                 // cofactors (V): w.r.t. the top-most variable of the current order
                 for f in (0..(if grp("bool") { 256usize } else { 0 })).step_by(if thorough { 1 } else { 3 }) {
@@ -406,9 +425,16 @@ fn release_substs<F: BoolExt>(s: &mut Session<F>, substs: &mut Vec<(Subst<F>, Ve
 /// with the very same handles before and after an invalidation point
 /// (add_vars, gc, reordering): a stale cache entry changes a result.
 fn same_calls_block<F: BoolExt>(s: &mut Session<F>, win: &[Slot], cubes: &[Slot], varsets: &[Slot], salt: usize) {
+    // results are dropped at once; every third one through Manager::try_remove_node
+    let cnt = std::cell::Cell::new(salt);
     let dropr = |s: &mut Session<F>, r: Option<Slot>| {
         if let Some(x) = r {
-            s.drop_h(x);
+            cnt.set(cnt.get() + 1);
+            if cnt.get() % 3 == 0 {
+                s.try_remove_h(x);
+            } else {
+                s.drop_h(x);
+            }
         }
     };
     for (i, &a) in win.iter().enumerate() {
@@ -1002,6 +1028,8 @@ pub fn replay<F: BoolExt>(args: &Args) {
                         for k in done {
                             substs.remove(&k);
                         }
+                    } else if e.get("via").and_then(|v| v.as_str()) == Some("try_remove") {
+                        s.try_remove_h(a);
                     } else {
                         s.drop_h(a);
                     }
